@@ -24,7 +24,7 @@ func init() {
 }
 
 func runC07(c *fw.Ctx) {
-	c.Rule = "(1) store level: seeded Set/Delete histories over prefix-sharing topics (all topics of <=3 levels over {a,b,''} under a mount point) on the real replicated retained store, then Get(filter) for EVERY valid filter of <=4 levels over {a,b,c,+,#,''} compared with the model map filtered by the MQTT matcher; plus retained writes alternating between two nodes whose clocks differ by 7 s, each delivered to the other before the next write; (2) end to end: histories of <=12 retained publishes / clears / subscribes over 5 prefix-sharing topics on a broker node (and subscribes on a second node after the gossip barrier): each new subscription must receive, between its SUBACK and the barrier (own PINGRESP, then a sentinel), exactly one retain-flagged copy per model topic matched by its filter with the latest payload, nothing for cleared topics; a standing subscriber must see the live copies unflagged; a second standing subscriber re-sends SUBSCRIBE for the filter it already holds and must get the replay each time. Store level also: writes on two nodes with one clock whose broadcasts arrive 0-3 writes late (a clear may overtake the publish it clears): the write that happened last decides on both. distinct = (history, filter); non-trivial = the model holds >=2 topics and the filter matches some but not all"
+	c.Rule = "(1) store level: seeded Set/Delete histories over prefix-sharing topics (all topics of <=3 levels over {a,b,''} under a mount point) on the real replicated retained store, then Get(filter) for EVERY valid filter of <=4 levels over {a,b,c,+,#,''} compared with the model map filtered by the MQTT matcher; plus retained writes alternating between two nodes whose clocks differ by 7 s, each delivered to the other before the next write; (2) end to end: histories of <=12 retained publishes / clears / subscribes over 5 prefix-sharing topics on a broker node (and subscribes on a second node after the gossip barrier): each new subscription must receive, between its SUBACK and the barrier (own PINGRESP, then a sentinel), exactly one retain-flagged copy per model topic matched by its filter with the latest payload, nothing for cleared topics; a standing subscriber must see the live copies unflagged; a second standing subscriber re-sends SUBSCRIBE for the filter it already holds and must get the replay each time. Burst scenarios: one SUBSCRIBE matching 27-120 retained topics gets every one of them. Store level also: writes on two nodes with one clock whose broadcasts arrive 0-3 writes late (a clear may overtake the publish it clears): the write that happened last decides on both. distinct = (history, filter); non-trivial = the model holds >=2 topics and the filter matches some but not all"
 	c.Assume("one filter per SUBSCRIBE packet; publishes wait for PUBACK (the retained store is updated before the acknowledgement)")
 	workers := runtime.NumCPU()
 	filters := c01Enumerate([]string{"a", "b", "c", "+", "#", ""}, 4, true)
@@ -287,7 +287,16 @@ func runC07(c *fw.Ctx) {
 			c07Scenario(c, s)
 		}(s)
 	}
+	for i := 0; i < c.Pick(4, 24); i++ {
+		wg.Add(1)
+		go func(i int) { defer wg.Done(); c07Burst(c, i) }(i)
+	}
 	wg.Wait()
+	// two goroutines publish retained messages on one topic of one node at the same moment: what the node
+	// keeps must be what its broadcasts give a follower
+	for r := 0; r < c.Pick(2, 10); r++ {
+		c20HotTopic(c, 700+r)
+	}
 	c.Floor("e2e_subscriptions_checked", 40)
 	c.Floor("e2e_retained_copies_seen", 20)
 }
@@ -587,4 +596,84 @@ func c07Evs(cl *kit.Client) []string {
 		out = append(out, fmt.Sprintf("%d %s", e.Seq, e.Pkt))
 	}
 	return out
+}
+
+// c07Burst: one SUBSCRIBE matches many retained topics at once (more than any internal queue holds):
+// every one of them is replayed, flagged, exactly once.
+func c07Burst(c *fw.Ctx, idx int) {
+	fw.LogCase("C07 burst %d", idx)
+	cl := kit.NewCluster(kit.WorkDir("c07b"))
+	defer cl.Close()
+	n, err := cl.AddNode(kit.NodeOpts{ID: 1})
+	if err != nil {
+		c.Inconclusive("cannot start node: " + err.Error())
+		return
+	}
+	pub, err := n.MustConnect(kit.ConnectOpts{ClientID: "pub", KeepAlive: 600, Clean: true})
+	if err != nil {
+		c.Inconclusive("connect: " + err.Error())
+		return
+	}
+	defer pub.Close()
+	count := []int{30, 60, 120, 27}[idx%4]
+	want := map[string]bool{}
+	for i := 0; i < count; i++ {
+		t := fmt.Sprintf("rb/%d/%d", i%7, i)
+		v := fmt.Sprintf("b%d-%d", idx, i)
+		if acked, _ := pub.Publish(t, []byte(v), 1, true, kit.DefaultWait); !acked {
+			c.Inconclusive("retained publish not acknowledged")
+			return
+		}
+		want[t+"="+v] = true
+	}
+	sub, err := n.MustConnect(kit.ConnectOpts{ClientID: "late", KeepAlive: 600, Clean: true})
+	if err != nil {
+		c.Inconclusive("connect: " + err.Error())
+		return
+	}
+	defer sub.Close()
+	if err := sub.Sub1("zz/burst", 0); err != nil {
+		c.Inconclusive("subscribe: " + err.Error())
+		return
+	}
+	qos := idx % 2
+	if err := sub.Sub1("rb/#", qos); err != nil {
+		c.Inconclusive("subscribe: " + err.Error())
+		return
+	}
+	if ok, _ := sub.Ping(kit.DefaultWait); !ok {
+		c.Inconclusive("no PINGRESP after SUBSCRIBE")
+		return
+	}
+	if acked, _ := pub.Publish("zz/burst", []byte("END"), 1, false, kit.DefaultWait); !acked {
+		c.Inconclusive("sentinel not acknowledged")
+		return
+	}
+	if _, _, err := sub.WaitFor(0, 60*time.Second, func(e kit.Event) bool { return e.Pkt.Type == kit.PUBLISH && e.Pkt.Topic == "zz/burst" }); err != nil {
+		c.Inconclusive("late subscriber never saw its sentinel: " + err.Error())
+		return
+	}
+	got := map[string]int{}
+	for _, p := range sub.Publishes() {
+		if p.Topic == "zz/burst" || p.Dup {
+			continue
+		}
+		got[p.Topic+"="+string(p.Payload)]++
+		c.Observe("e2e_retained_copies_seen", 1)
+	}
+	missing := []string{}
+	for k := range want {
+		if got[k] == 0 {
+			missing = append(missing, k)
+		} else if got[k] > 1 {
+			c.Violation("e2e:replay-duplicated", fmt.Sprintf("burst scenario %d: subscription 'rb/#' received %d copies of the retained message %s", idx, got[k], k), nil)
+		}
+	}
+	sort.Strings(missing)
+	c.Observe("e2e_subscriptions_checked", 1)
+	c.Case(fmt.Sprintf("burst|%d|%d", idx, count), true)
+	if len(missing) > 0 {
+		c.Violation("e2e:replay-missing:burst", fmt.Sprintf("burst scenario %d: a subscription (QoS %d) matching %d retained topics received only %d of them; missing e.g. %s", idx, qos, count, count-len(missing), missing[0]),
+			map[string]interface{}{"scenario": idx, "retained_topics": count, "missing": len(missing)})
+	}
 }
